@@ -39,10 +39,6 @@ NOT_APPLICABLE = {"C11"}
 REVIEW_ONLY = {
     "Vt::feed_str": ("C02", "C12", "C13", "C14", "C15", "C20"),
     "Vt::resize": ("C02", "C10", "C13", "C15"),
-    # one-line leaves whose contract Verus assumes and no Kani unit can check (String / derive / FFI-like code)
-    "Line::text": ("C09",),
-    "TextUnwrapper::new": ("C09",),
-    "Color::rgb": ("C08",),
 }
 
 LEVELS = {  # level reported in the evidence (must match MANIFEST)
